@@ -11,7 +11,11 @@ RULE = ('E1: all 64 method classes x argument vectors with <= 2 deviations '
         'dict(), len, membership of every spec name, 20 foreign names and '
         'every name occurring among the object\'s own values (table keys, '
         'strings; incl. tables keyed by the argument / property names), '
-        'item access, attributes(), amqp_type. A case is (class, vector, '
+        'item access, attributes(), amqp_type; order of first use: 8 preludes '
+        'on a freshly imported library (bare base classes first, properties '
+        'first, application subclasses first, class-level calls first, '
+        'decoding first, reversed / sorted / interleaved class order) '
+        'followed by the view of every class. A case is (class, vector, '
         'before|after); non-trivial = not the default vector.')
 BOUNDS = {'quick': {'vectors': '<=2 deviations', 'properties': 'C02 quick'},
           'thorough': {'vectors': 'full products', 'properties':
@@ -31,7 +35,119 @@ def tasks(tier, seed):
         out = [('m2', m.name) for m in spec_table.METHODS]
     out += [('h',) + tuple(t) for t in corpus.header_tasks(tier)]
     out += [('names',)]
+    out += [('order', v) for v in ORDERS]
     return out
+
+
+ORDERS = ['base-first', 'props-first', 'reverse', 'fewest-arguments-first',
+          'class-level-first', 'decode-first', 'subclass-first',
+          'interleaved']
+
+
+def _use(obj):
+    """Exercise the whole mapping interface of one object, ignoring what it
+    answers (first-use side effects are the point)."""
+    for f in (lambda: list(iter(obj)), lambda: dict(obj), lambda: len(obj),
+              lambda: 'x' in obj, lambda: type(obj).attributes(),
+              lambda: obj.marshal(), lambda: obj.validate(),
+              lambda: [type(obj).amqp_type(n)
+                       for n in type(obj).attributes()]):
+        try:
+            f()
+        except Exception:  # noqa
+            pass
+
+
+def check_order(ctx, variant):
+    """Order of first use: a freshly imported library, a prelude that
+    touches some classes first (the bare base classes, the properties, an
+    application subclass, class-level calls, decoding), then the mapping
+    view of every class, default and non-default, before and after a round
+    trip.  Whatever was used first, every class answers from its own
+    argument list."""
+    from mc import libstate, refcodec
+    p = libstate.fresh_import()
+    methods = list(spec_table.METHODS)
+    if variant == 'base-first':
+        for name in ('_AMQData', 'Frame', 'BasicProperties'):
+            cls = getattr(p.base, name, None)
+            if cls is not None:
+                try:
+                    _use(cls())
+                except Exception:  # noqa
+                    pass
+    elif variant == 'props-first':
+        _use(p.commands.Basic.Properties())
+        _use(p.commands.Basic.Properties(app_id='a', headers={'k': 1}))
+    elif variant == 'reverse':
+        methods.reverse()
+    elif variant == 'fewest-arguments-first':
+        methods.sort(key=lambda m: (len(m.args), m.name))
+    elif variant == 'class-level-first':
+        for m in methods:
+            cls = corpus.lib_class_by_name(m)
+            for f in (cls.attributes, lambda: [cls.amqp_type(n) for n in
+                                               cls.attributes()]):
+                try:
+                    f()
+                except Exception:  # noqa
+                    pass
+    elif variant == 'decode-first':
+        for m in methods:
+            data, _f = refcodec.enc_method_frame(
+                m, corpus.nondefault_vector(m), 1)
+            try:
+                p.frame.unmarshal(data)
+            except Exception:  # noqa
+                pass
+        try:
+            p.frame.unmarshal(refcodec.enc_header_frame(
+                1, {'app_id': 'a'}, 1)[0])
+        except Exception:  # noqa
+            pass
+    elif variant == 'subclass-first':
+        try:
+            class AppDeclare(p.commands.Queue.Declare):
+                pass
+
+            class AppFrame(p.base.Frame):
+                __slots__ = ['only']
+                __annotations__ = {'only': int}
+                _only = 'octet'
+                name = 'App.Frame'
+
+            class AppProps(p.commands.Basic.Properties):
+                pass
+            for cls in (AppDeclare, AppFrame, AppProps):
+                try:
+                    _use(cls())
+                except Exception:  # noqa
+                    pass
+        except Exception:  # noqa
+            pass
+    elif variant == 'interleaved':
+        # one class of each AMQP class first, the properties in the middle
+        methods.sort(key=lambda m: (m.method_id, m.class_id))
+        methods.insert(len(methods) // 2, None)
+    pnames_done = False
+    for m in methods + [None]:
+        if m is None:
+            if pnames_done:
+                continue
+            pnames_done = True
+            for props in ({}, {'app_id': 'a', 'headers': {'k': [1]},
+                               'priority': 0, 'delivery_mode': 2}):
+                ctx.case(('order', variant, 'props', canon(props)), True,
+                         sample=lambda: {'first_use_order': variant,
+                                         'properties': short(props, 80)})
+                check_props(ctx, props, order=variant)
+            continue
+        for vec in (corpus.default_vector(m), corpus.nondefault_vector(m)):
+            ctx.case(('order', variant, m.name, canon(list(vec))), True,
+                     sample=lambda: {'first_use_order': variant,
+                                     'method': m.name})
+            check_method(ctx, m, tuple(vec), order=variant)
+    libstate.fresh_import()
 
 
 def mapping_view(obj, names, types, label):
@@ -106,12 +222,15 @@ def mapping_view(obj, names, types, label):
     return bad
 
 
-def check_method(ctx, m, vec):
+def check_method(ctx, m, vec, order=None):
     p = lib.pamqp()
     names = [a[0] for a in m.args]
     types = [a[1] for a in m.args]
     case = {'kind': 'method', 'method': m.name, 'vec': tojson(list(vec))}
     fp = 'mapping|{}|{}'.format(m.name, short(list(vec), 300))
+    if order:
+        case = {'kind': 'order', 'variant': order}
+        fp = 'order|' + order + '|' + fp
     try:
         obj = corpus.construct(m, vec)
         ctx.calls()
@@ -144,18 +263,21 @@ def check_method(ctx, m, vec):
                     bad.append('setattr raised {!r}'.format(exc))
         if bad:
             ctx.outcome('mismatch')
-            ctx.violation(fp + stage, '{} {} ({}): {}'.format(
+            ctx.violation(fp + stage, '{}{} {} ({}): {}'.format(
+                'first-use order "%s": ' % order if order else '',
                 m.name, short(list(vec), 160), stage, '; '.join(bad)[:500]),
                 case, 'consistent mapping view', bad[:6])
         else:
             ctx.outcome('ok')
 
 
-def check_props(ctx, props):
+def check_props(ctx, props, order=None):
     p = lib.pamqp()
     names = [a[0] for a in spec_table.PROPERTIES]
     types = [a[1] for a in spec_table.PROPERTIES]
     case = {'kind': 'props', 'props': tojson(props)}
+    if order:
+        case = {'kind': 'order', 'variant': order}
     try:
         obj = p.commands.Basic.Properties(**props)
         ctx.calls()
@@ -175,10 +297,11 @@ def check_props(ctx, props):
         bad = mapping_view(o, names, types, 'Basic.Properties')
         if bad:
             ctx.outcome('mismatch')
-            ctx.violation('mapping|props|{}|{}'.format(short(props, 300),
-                                                       stage),
-                          'Basic.Properties {} ({}): {}'.format(
-                              short(props, 160), stage,
+            ctx.violation('mapping|props|{}|{}|{}'.format(
+                order, short(props, 300), stage),
+                          '{}Basic.Properties {} ({}): {}'.format(
+                              'first-use order "%s": ' % order if order
+                              else '', short(props, 160), stage,
                               '; '.join(bad)[:500]), case,
                           'consistent mapping view', bad[:6])
         else:
@@ -204,7 +327,9 @@ def name_keyed_cases():
 
 def run(task, ctx):
     kind = task[0]
-    if kind == 'names':
+    if kind == 'order':
+        check_order(ctx, task[1])
+    elif kind == 'names':
         for what, arg in name_keyed_cases():
             if what == 'props':
                 ctx.case(('props', canon(arg)), True, sample=lambda: {
@@ -237,7 +362,9 @@ def run(task, ctx):
 
 
 def replay(case, ctx):
-    if case['kind'] == 'method':
+    if case['kind'] == 'order':
+        check_order(ctx, case['variant'])
+    elif case['kind'] == 'method':
         check_method(ctx, spec_table.BY_NAME[case['method']],
                      tuple(fromjson(case['vec'])))
     else:
